@@ -316,6 +316,14 @@ def apply_step(rng, spec, root, notpassed):
                 live.properties[new_name] = live.properties.pop(name)
             elif step == "prop_source_assign":
                 new_source = rng.choice([name + "_renamed", "SRC", name])
+                taken = {(spec_p.get("source") if spec_p.get("source") is not None else other)
+                         for other, spec_p in holder.items() if other != name}
+                if new_source in taken:
+                    # two properties under ONE JSON name is not a configuration the statement speaks about
+                    # (a JSON object has one member per name): keep the names distinct
+                    new_source = name + "_renamed"
+                    if new_source in taken:
+                        continue
                 holder[name] = dict(holder[name], source=new_source if new_source != name else None)
                 live.properties[name].source = new_source
             elif step == "prop_replace_other_source":
